@@ -112,8 +112,11 @@ Proof.
 Qed.
 Lemma src_reset_pre : reset_pre = ser reset_tok. Proof. reflexivity. Qed.
 Lemma src_reset_post : reset_post = ser reset_tok. Proof. reflexivity. Qed.
-(* F-C13: holds for the repaired to_lines only (fixes/C13-blank-row-reset.patch) *)
-Lemma src_reset_blank : reset_blank = ser reset_tok. Proof. reflexivity. Qed.
+(* F-C13: [reset_blank = ser reset_tok] holds for the repaired to_lines only
+   (fixes/C13-blank-row-reset.patch); it is proved in Proofs/BlankRowReset.v and reaches the lemmas
+   below as a hypothesis, so that everything about rectangles without rows >= 297 (C07, C14) does
+   not depend on it. *)
+Definition blank_reset_ok (p : placeholder) : Prop := reset_blank = ser reset_tok \/ end_row p <= 297.
 Lemma src_blank_cell : blank_cell_bytes = ser (TChar 32). Proof. reflexivity. Qed.
 Lemma src_line_init : line_init = []. Proof. reflexivity. Qed.
 Lemma src_colors_init : colors_init = []. Proof. reflexivity. Qed.
@@ -217,9 +220,10 @@ Proof.
   change (ser_toks []) with (@nil N). rewrite ?app_nil_r, <- ?app_assoc. reflexivity.
 Qed.
 
-Lemma blank_line_toks p b row :
+Lemma blank_line_toks p b row : reset_blank = ser reset_tok ->
   blank_line p (fmt_of b) false row = ser_toks (line_toks (blank_pre b row) (blank_items p b row)).
 Proof.
+  intros src_reset_blank.
   unfold blank_line, line_toks, blank_pre, blank_items.
   rewrite src_line_init, src_reset_pre, src_reset_blank, row_fmt_of.
   assert (E : forall col, cell_fmt (fmt_of b) col row ++ blank_cell_bytes
@@ -232,33 +236,39 @@ Proof.
 Qed.
 
 Lemma line_of_toks p m b row : ph_char m = [placeholder_cp] -> start_col p < 297 -> msb_of p < 297 ->
+  (reset_blank = ser reset_tok \/ row < 297) ->
   line_of p m (fmt_of b) false (utf8_encode (dia (msb_of p))) row = Some (ser_toks (row_toks p m b row)).
 Proof.
-  intros Hph Hc Hm. unfold line_of, row_toks. rewrite src_table_len.
+  intros Hph Hc Hm Hb. unfold line_of, row_toks. rewrite src_table_len.
   destruct (297 <=? row) eqn:E.
-  - rewrite blank_line_toks. reflexivity.
+  - rewrite blank_line_toks by (destruct Hb; [assumption|lia]). reflexivity.
   - apply image_line_toks; try assumption. lia.
 Qed.
 
 Lemma sequence_map_some (A B : Type) (g : A -> B) (f : A -> option B) l :
-  (forall a, f a = Some (g a)) -> sequence (map f l) = Some (map g l).
+  (forall a, In a l -> f a = Some (g a)) -> sequence (map f l) = Some (map g l).
 Proof.
-  intros H. induction l as [|a l IH]; [reflexivity|]. cbn [map sequence]. rewrite H, IH. reflexivity.
+  intros H. induction l as [|a l IH]; [reflexivity|]. cbn [map sequence].
+  rewrite H by (left; reflexivity). rewrite IH by (intros a' Ha'; apply H; right; exact Ha'). reflexivity.
 Qed.
+Lemma in_range row a b : In row (range a b) -> a <= row < b.
+Proof. unfold range. intros H. apply in_map_iff in H as (k & <- & Hk). apply in_seq in Hk. lia. Qed.
 
 Definition rows_of (p : placeholder) : list N := range (start_row p) (end_row p).
 Definition lines_toks (p : placeholder) (m : mode) (b : bgfmt) : list (list tok) :=
   map (row_toks p m b) (rows_of p).
 
 Theorem to_lines_toks p m b : validate p = true -> ph_char m = [placeholder_cp] -> start_col p < 297 ->
+  blank_reset_ok p ->
   to_lines p m (fmt_of b) false = Ok (map ser_toks (lines_toks p m b)).
 Proof.
-  intros Hv Hph Hc. unfold to_lines. rewrite Hv. cbn [negb].
+  intros Hv Hph Hc Hb. unfold to_lines. rewrite Hv. cbn [negb].
   assert (Hid : image_id p < 4294967296).
   { unfold validate, v_id_max in Hv. lia. }
   assert (Hm : msb_of p < 297) by (rewrite src_msb_of by exact Hid; lia).
   rewrite (diac_dia _ Hm).
   rewrite (sequence_map_some _ _ (fun row => ser_toks (row_toks p m b row))).
   - unfold lines_toks, rows_of. rewrite map_map. reflexivity.
-  - intros row. apply line_of_toks; assumption.
+  - intros row Hrow. apply line_of_toks; try assumption.
+    destruct Hb as [Hb|Hb]; [left; exact Hb|right]. apply in_range in Hrow. lia.
 Qed.
